@@ -169,7 +169,7 @@ def gen_case(seed):
             sc["script"].append(op)
     if kind in ("close", "hostile") and rng.random() < 0.7:
         sc["script"].append({"t": round(0.05 + rng.random() * 2.5, 4), "side": rng.choice(["client", "server"]), "op": "close",
-                             "code": rng.choice([0, 7, 0x10E]), "frame_type": rng.choice([None, 0, 6]),
+                             "code": rng.choice([0, 7, 0x10E, 0x10, 0x11, 0x128, 0x1234, 2**62 - 1]), "frame_type": rng.choice([None, 0, 6]),
                              "reason": rng.choice(["", "bye", "café ☃", "x" * 300, "\x00\x01"])})
     sc["script"].sort(key=lambda o: o["t"])
     sc["horizon"] = sc["fates"]["adv_seconds"] + 60.0
